@@ -20,7 +20,7 @@
 #define MAXR 8
 #define MAXU 4
 
-static int nreaders = 2, nupdaters = 1, rops = 30, uops = 3, use_sig, churn = 1, park;
+static int nreaders = 2, nupdaters = 1, rops = 30, uops = 3, use_sig, churn = 1, park, oneshot;
 
 /* litmus data: plain memory, accessed only through these logged helpers */
 static volatile long X[MAXU], Y[MAXU];
@@ -116,6 +116,24 @@ static void *reader(void *arg)
 	reader_tid[r] = vrt_self();
 	vrt_name(&URCU_TLS(rcu_reader).ctr, sizeof(unsigned long), "reader%d.ctr", vrt_self());
 	vrt_log("READER %d", r);
+	if (oneshot) {
+		/* one parked section, then leave for good: a lost wake-up cannot be masked by a later unlock */
+		vrt_log("CALL register");
+		rcu_register_thread();
+		vrt_log("RET register");
+		registered = 1;
+		do_lock(r);
+		{
+			/* leave the section around the moment the updater goes from spinning to sleeping
+			 * (RCU_QS_ACTIVE_ATTEMPTS spin hints), or well after it fell asleep */
+			unsigned long target = RCU_QS_ACTIVE_ATTEMPTS - 3 + vrt_rand() % 5;
+			if (oneshot == 2) { vrt_sleep(1000000); target = 0; }
+			if (vrt_rand() % 4 == 0) target += 40;
+			while (vrt_total_relax() < target && vrt_steps() < 20000)
+				vrt_sleep(1 + vrt_rand() % 3);
+		}
+		rops = 0;
+	}
 	for (i = 0; i < rops; i++) {
 		unsigned c = vrt_rand() % 100;
 		if (!registered) {
@@ -194,6 +212,8 @@ int main(int argc, char **argv)
 		else if (!strcmp(argv[i], "--sig")) use_sig = 1;
 		else if (!strcmp(argv[i], "--nochurn")) churn = 0;
 		else if (!strcmp(argv[i], "--park")) park = 1;
+		else if (!strcmp(argv[i], "--oneshot")) oneshot = 1;
+		else if (!strcmp(argv[i], "--oneshot-sweep")) oneshot = 2;
 	}
 	if (nreaders > MAXR) nreaders = MAXR;
 	if (nupdaters > MAXU) nupdaters = MAXU;
